@@ -754,3 +754,25 @@ def point_in_feature(rng, ctx, ft):
     unit = ctx.unit()
     d = d0 + v
     return (wrap_lon(ctx, px + nx * h / unit), py + ny * h / unit, max(0.0, d))
+
+
+# ----------------------------------------------------------------------------------------
+# 2D cross-section queries
+
+def section_query(ctx, cross, t, depth):
+    """t = fraction along the section from its first to its second point.
+    -> ((x2, z2) for the 2D interface, (sx, sy) surface position in file units per the statement of C09)"""
+    ax, ay = cross[0]
+    bx, by = cross[1]
+    if not ctx.sph:
+        L = math.hypot(bx - ax, by - ay)
+        s = t * L
+        ux, uy = (bx - ax) / L, (by - ay) / L
+        return (s, ctx.H - depth), (ax + s * ux, ay + s * uy)
+    d2r = PI / 180.0
+    dlon, dlat = (bx - ax) * d2r, (by - ay) * d2r
+    L = math.hypot(dlon, dlat)
+    theta = t * L
+    r = ctx.R - depth
+    ux, uy = dlon / L, dlat / L
+    return (r * math.cos(theta), r * math.sin(theta)), (ax + theta * ux / d2r, ay + theta * uy / d2r)
